@@ -81,7 +81,8 @@ Definition mismatches_C01 := mism false pi_removal.   Definition propfail_C01 :=
 Definition mismatches_C03 := mism false pi_updates.   Definition propfail_C03 := pfail check_C03_group.
 Definition mismatches_C04 := mism false pi_cloud.     Definition propfail_C04 := pfail check_C04_group.
 Definition mismatches_C06 := mism false pi_decision.  Definition propfail_C06 := pfail check_C06_group.
-Definition mismatches_C07 := mism false pi_reuse.     Definition propfail_C07 := pfail check_C07_group.
+Definition mismatches_C07 := mism false pi_reuse.
+Definition propfail_C07 := pfail (fun x calls => check_C07_group x calls && check_C07_exact x calls).
 Definition mismatches_C08 := mism false pi_k8s.       Definition propfail_C08 := pfail check_C08_group.
 Definition mismatches_C09 := mism false pi_writes.    Definition propfail_C09 := pfail check_C09_group.
 Definition mismatches_C10 := mism false pi_removal.   Definition propfail_C10 := pfail check_C10_group.
@@ -126,9 +127,11 @@ Definition known_K3 (cs : list scan_case) : list nat :=
                        match find_group (sc_snap c) (fst nr) with Some g => force_notingroup (sc_snap c) g | None => false end)
             (fst (run_once (sc_snap c)))) cs 0.
 
-(* C05, scan side: the scale-up composition (untaints + cloud request) and the node-size cache *)
+(* C05, scan side: the scale-up composition (untaints + cloud request: the number of nodes brought into service is the
+   needed number, the cloud being asked for exactly the remainder) and the node-size cache *)
 Definition mismatches_C05S := mism true pi_decision.
 Definition propfail_C05S (cs : list scan_case) : list nat :=
   indices_where (fun c => negb (forallb (fun g => match find_group (sc_snap c) (og_name g) with
                                                  | Some gi => check_C05_cache (mk_ctx (sc_snap c) gi) (gi_state gi) (og_state g)
+                                                              && check_C07_exact (mk_ctx (sc_snap c) gi) (og_calls g)
                                                  | None => false end) (sc_obs c))) cs 0.
